@@ -82,6 +82,26 @@ Proof.
 Qed.
 Print Assumptions C17_roundtrip.
 
+(* the same round trip stated on the TRANSLATIONS of MarshalText and UnmarshalText (Gen/LevelNames.v): for every
+   registry reachable by any list of registrations and every level in it, the code's MarshalText returns a text
+   and no error, and the code's UnmarshalText of that text stores exactly that level - whatever the receiver
+   held - returns no error and warns about nothing *)
+Theorem C17_gen_marshal_text : forall g l,
+  LevelNames.marshal_text (r_l2s g) l =
+  match marshal_text g l with Some s => (s, None) | None => ([], Some tt) end.
+Proof. exact GenLevelP.gen_marshal_text. Qed.
+Print Assumptions C17_gen_marshal_text.
+Theorem C17_gen_text_roundtrip : forall cs l cur tr, let g := reg_run init_registry cs in In l (r_all g) ->
+  exists b, LevelNames.marshal_text (r_l2s g) l = (b, None)
+         /\ LevelNames.unmarshal_text (r_s2l g) cur b tr = (None, l, tr).
+Proof.
+  intros cs l cur tr g Hl. subst g. pose proof (C17_roundtrip cs l) as R. cbv zeta in R.
+  destruct (R Hl) as [_ [b [Hm Hu]]]. exists b. split.
+  - rewrite GenLevelP.gen_marshal_text. rewrite Hm. reflexivity.
+  - rewrite GenLevelP.gen_unmarshal_text. unfold unmarshal_text in Hu. rewrite Hu. reflexivity.
+Qed.
+Print Assumptions C17_gen_text_roundtrip.
+
 (* the JSON form: for every JSON string codec with its own round trip (encoding/json) *)
 Theorem C17_json_roundtrip : forall jq junq, (forall s, junq (jq s) = Some s) ->
   forall cs l, let g := reg_run init_registry cs in In l (r_all g) ->
